@@ -64,6 +64,12 @@ def let_and_match(draw, depth):
         return [['flag', draw(lang.bool_expr(2))]], [draw(st.sampled_from(['and', 'or'])), [['var', 'flag'], base]]
     if kind == 8:
         return [['lbl', draw(lang.str_expr(2))]], ['or', [['match', 'contains', ['var', 'lbl'], draw(lang.pattern_text)], base]]
+    if kind == 9 and draw(st.booleans()):
+        # a let that SHADOWS a top-level variable, a data source or a primitive (visible to this rule only)
+        name = draw(st.sampled_from(['threshold', 'is_large', 'label', 'orders', 'amount']))
+        val = {'threshold': ['num', draw(st.sampled_from(lang.CONSTS))], 'is_large': ['lit', draw(st.booleans())], 'label': ['str', draw(lang.word)],
+               'orders': ['listcomp', ['name', 'r'], 'r', ['name', 'receipts'], None], 'amount': ['num', draw(st.sampled_from(lang.CONSTS))]}[name]
+        return [[name, val]], [draw(st.sampled_from(['and', 'or'])), [base, draw(st.sampled_from([['cmp', ['field', 'nosuch'], [['==', ['str', 'x']]]], ['lit', True], base]))]]
     # chained lets, possibly failing in the middle
     return [['t', draw(st.one_of(lang.num_expr(1), st.just(['field', 'nosuch'])))], ['flag', ['cmp', ['var', 't'], [['>', ['num', 10]]]]]], \
         ['or', [['var', 'flag'], base]]
